@@ -946,6 +946,40 @@ func c20WholeRun(ctx *Ctx, res *Result, tally *c20Tally, scIdx, fxIdx int, flags
 	res.TracesValidated++
 }
 
+// c20EndOfRunLoads evaluates the property at one more point of real runs: after
+// Main has returned (in this process, shim VerifC20MainThenLoad) every file that
+// is still cached is loaded again and compared with the disk.  A view that was
+// fixed but never saved shows here even if the run itself did not load the file twice.
+func c20EndOfRunLoads(ctx *Ctx, res *Result, tally *c20Tally) {
+	for sc := range c20Scenarios {
+		for fx := range c20Fixable {
+			for _, flags := range [][]string{{}, {"-F"}, {"--show-autofix"}} {
+				root := filepath.Join(ctx.Work, "wr", "eor")
+				_ = os.RemoveAll(root)
+				t := c20BuildTree(root, &c20Scenarios[sc], c20Fixable[fx])
+				args := append(append([]string{"-Wall"}, flags...), c20Scenarios[sc].Pkgs...)
+				stale, cached, panicked := pkglint.VerifC20MainThenLoad(t.Root, args)
+				res.Evaluations++
+				tally.add("end_of_run_audits", 1)
+				tally.add("end_of_run_cached_files_reloaded", cached)
+				desc := fmt.Sprintf("scenario %s, shared file lines %q, `pkglint %s`", c20Scenarios[sc].Name, c20Fixable[fx], strings.Join(args, " "))
+				replay := map[string]any{"kind": "endofrun", "scenario": sc, "fixable": fx, "flags": strings.Join(flags, " ")}
+				if panicked != "" {
+					res.AddViolation(Violation{Key: "C20/end-of-run/crash", FoundInput: true, Size: 12,
+						What: desc + " (in process): " + panicked, Replay: replay})
+					continue
+				}
+				if len(stale) > 0 {
+					res.AddViolation(Violation{Key: "C20/end-of-run/cached-file-differs-from-disk", FoundInput: true, Size: 12,
+						What:   fmt.Sprintf("%s: at the end of the run Load differs from the file for %d cached file(s): %s", desc, len(stale), stale[0]),
+						Replay: replay})
+				}
+			}
+		}
+	}
+	_ = os.RemoveAll(filepath.Join(ctx.Work, "wr", "eor"))
+}
+
 func c20WholeRuns(ctx *Ctx, res *Result, tally *c20Tally) {
 	// the base fixture must still be clean, otherwise nothing below means anything
 	t := NewBaseTree(filepath.Join(ctx.Work, "wr", "base"))
@@ -1059,6 +1093,7 @@ func runC20(ctx *Ctx) *Result {
 		return res
 	}
 	c20LoadMkTwice(ctx, res, tally)
+	c20EndOfRunLoads(ctx, res, tally)
 	c20WholeRuns(ctx, res, tally)
 	c20Audit(ctx, res, tally)
 
@@ -1071,7 +1106,7 @@ func runC20(ctx *Ctx) *Result {
 	if len(res.Violations) == 0 {
 		for k, floor := range map[string]int{"cache_hits": 1000, "miss_other_options": 1000, "overflow_removeOldEntries": 500,
 			"evict_removed_entry": 1000, "evict_swapped_with_last": 200, "loads_not_cached_suffix": 50, "dirty_loads_outside_guard": 200,
-			"saves_that_rewrote_a_file": 500, "loads_nil": 20, "whole_runs_that_rewrote_files": 10, "whole_run_later_package_with_diagnostics": 5} {
+			"saves_that_rewrote_a_file": 500, "loads_nil": 20, "whole_runs_that_rewrote_files": 10, "whole_run_later_package_with_diagnostics": 5, "end_of_run_cached_files_reloaded": 500} {
 			if tally.n[k] < floor {
 				res.Broken = fmt.Sprintf("coverage floor missed: %s = %d < %d", k, tally.n[k], floor)
 			}
@@ -1100,6 +1135,8 @@ func replayC20(ctx *Ctx, rep map[string]any) *Result {
 		flags, _ := rep["flags"].(string)
 		rec, _ := rep["recursive"].(bool)
 		c20WholeRun(ctx, res, tally, int(sc), int(fx), strings.Fields(flags), rec, "replay")
+	case "endofrun":
+		c20EndOfRunLoads(ctx, res, tally)
 	case "audit":
 		c20Audit(ctx, res, tally)
 	default:
